@@ -7,7 +7,7 @@ PROP = dict(
                   "go-runewidth modelled as the regenerated range table"],
     assumptions=["runes are int32 values; Resize is called with non-negative sizes (Go panics otherwise)",
                  "a caller does not mutate the slice GetContent returns (documented aliasing)",
-                 "Fill is used with width-1 runes for the reported-width clause (documented limitation of Fill)"],
+                 "Fill is used with width-1 runes for the reported-width clause (documented limitation of Fill); on the tree repaired by fixes/C09-fill-zero-width.patch: with runes not wider than 1 (reported_width_law, FillOk)"],
 )
 META = dict(
     technique="Lean 4 proof (induction over op histories with a specification ghost) + differential correspondence of the model with cell.go",
